@@ -61,8 +61,9 @@ func verifC01(maxMain, maxSide, maxBatch int, prune bool) {
 		if p > 0 {
 			pn = c.blocks[p-1].Nonce
 		}
-		ps, ok := c.m.State(absID(pn))
+		_, ok := c.m.State(absID(pn))
 		vapi.Assert("build.parent-state", ok)
+		ps := c.appliedState(pn) // what a caller that validated the branch holds
 		for i := 0; i < n; i++ {
 			b := c.newBlock(pn, true)
 			b.V2 = &types.V2BlockData{Height: ps.Index.Height + 1}
